@@ -125,7 +125,7 @@ def _tlc_batches(jobs, cfg, timeout, stats, coverage=False):
         try:
             _write_module(d, 'PrecBatch', cases, trees)
             r = tlc.run(d, 'PrecBatch', cfg=os.path.join(common.SPEC, cfg), timeout=timeout, coverage=coverage,
-                        workers=TLC_WORKERS, heap='3g')
+                        workers=TLC_WORKERS, heap='2g')
         finally:
             common.rm(d)
         if not r.ok:
@@ -161,7 +161,7 @@ def _prints(out):
 
 
 def _split(n):
-    nb = max((n + BATCH - 1) // BATCH, min(PAR, (n + 1499) // 1500), 1)
+    nb = max((n + BATCH - 1) // BATCH, min(PAR, (n + 2499) // 2500), 1)
     size = (n + nb - 1) // nb
     return [(i, min(n, i + size)) for i in range(0, n, size)]
 
@@ -275,7 +275,7 @@ def tree_cases(tier, seed):
     if tier == 'smoke':
         n_rand, d3 = 300, PT.enumerate_trees(3, [a], ['+'], ['-'], [], index_with=PT.Id('i'))
     elif tier == 'quick':
-        n_rand, d3 = 2000, PT.enumerate_trees(3, [a], ['*', '+'], ['-'], [], index_with=PT.Id('i'), length=False)
+        n_rand, d3 = 1500, PT.enumerate_trees(3, [a], ['*', '+'], ['-'], [], index_with=PT.Id('i'), length=False)
     else:
         n_rand, d3 = 20000, PT.enumerate_trees(3, [a], ['*', '+'], ['-', 'not'], ['int'], index_with=PT.Id('i'))
     res += [('d3', t) for t in d3 if PT.tree_depth(t) == 3]
